@@ -132,6 +132,9 @@ def cases(tier, seed):
         out.append({"k": "construct", "d": dt})
         out.append({"k": "perdtype", "d": dt})
         out.append({"k": "pairs", "d": dt})
+    for dt in DTYPES:
+        out.append({"k": "layouts", "d": dt})
+        out.append({"k": "mixedlists", "d": dt})
     out.append({"k": "empty"})
     return out
 
@@ -323,6 +326,75 @@ def run_case(case, R):
         twice(R, "result_type", f"result_type({dt} poly, {dt} poly)", lambda: numpoly.result_type(p, p), lambda got: [] if numpy.dtype(got).newbyteorder("=") == numpy.dtype(dt).newbyteorder("=") else [f"{got} != {dt}"], tags)
         twice(R, "common_type", f"common_type({dt} poly)", lambda: numpoly.common_type(p),
               lambda got: [] if (dt == "?" or got == numpy.common_type(cols[(0, 0)])) else [f"{got} != {numpy.common_type(cols[(0, 0)])}"], tags) if dt != "?" else None
+    elif k == "layouts":
+        # numeric sources in every memory layout: C, Fortran, transposed view, negative strides, broadcast (0 strides), read-only
+        src = case["d"]
+        R.state(("layouts", src))
+        base = data(src, 6)
+        c2 = base.reshape(2, 3).copy()
+        lay = {
+            "C": c2, "F": numpy.asfortranarray(c2), "T-view": base.reshape(3, 2).T.copy().T if False else numpy.ascontiguousarray(c2.T).T,
+            "negative strides": numpy.ascontiguousarray(c2[::-1, ::-1])[::-1, ::-1], "broadcast": numpy.broadcast_to(base[:3], (2, 3)),
+            "every other": numpy.repeat(c2, 2, axis=1)[:, ::2],
+        }
+        ro = c2.copy()
+        ro.setflags(write=False)
+        lay["read-only"] = ro
+        q0 = numpoly.variable(1, dtype="i1")
+        for lname, x in lay.items():
+            assert x.shape == (2, 3)
+            vals = numpy.array(x)
+            tags = [f"src={src}", f"layout={lname}"]
+            twice(R, "polynomial(ndarray)", f"polynomial({src} {lname})", lambda: numpoly.polynomial(x), lambda got: compare_cols(got, {(0, 0): vals}, src, None), tags)
+            twice(R, "aspolynomial(ndarray)", f"aspolynomial({src} {lname})", lambda: numpoly.aspolynomial(x), lambda got: compare_cols(got, {(0, 0): vals}, src, None), tags)
+            for tgt in ("f8", "i8", "c16", "?", "u4", "f4"):
+                with numpy.errstate(all="ignore"):
+                    want = vals.astype(tgt)
+                twice(R, "polynomial(x,dtype)", f"polynomial({src} {lname}, dtype={tgt})", lambda: numpoly.polynomial(x, dtype=tgt),
+                      lambda got: compare_cols(got, {(0, 0): want}, tgt, None), tags + [f"tgt={tgt}"])
+            twice(R, "from_attributes", f"from_attributes with {src} {lname} coefficients",
+                  lambda: numpoly.polynomial_from_attributes([(0, 0), (1, 1)], [x, x[::-1]], ("q0", "q1")),
+                  lambda got: compare_cols(got, {(0, 0): vals, (1, 1): vals[::-1]}, src, None), tags)
+            if src != "?":
+                rt = numpy.result_type(numpy.dtype("i1"), numpy.dtype(src))
+                one = numpy.ones((2, 3), dtype=rt)
+                twice(R, "add", f"q0 + {src} {lname}", lambda: q0 + x, lambda got: compare_cols(got, {(0, 0): vals.astype(rt), (1, 0): one}, rt, None, ("q0", "q1")), tags)
+                twice(R, "radd", f"{src} {lname} + q0", lambda: x + q0, lambda got: compare_cols(got, {(0, 0): vals.astype(rt), (1, 0): one}, rt, None, ("q0", "q1")), tags)
+                twice(R, "multiply", f"{src} {lname} * q0", lambda: x * q0, lambda got: compare_cols(got, {(1, 0): vals.astype(rt)}, rt, None, ("q0", "q1")), tags)
+                twice(R, "subtract", f"q0 - {src} {lname}", lambda: q0 - x, lambda got: compare_cols(got, {(0, 0): (-vals.astype(rt)) if rt.kind != "u" else (0 - vals.astype(rt)), (1, 0): one}, rt, None, ("q0", "q1")), tags)
+    elif k == "mixedlists":
+        # lists that mix an entry of a given dtype with plain Python numbers: dtype and values as numpy.array(list) gives
+        src = case["d"]
+        R.state(("mixedlists", src))
+        typed = data(src, 3)[1]
+        if src == "?":
+            typed = numpy.bool_(True)
+        for py in (3, -1, 300, 70000, 0.1, 1e5, 1.5, 1j, True, 2 ** 40):
+            for order in ("typed first", "python first"):
+                items = [typed, py] if order == "typed first" else [py, typed]
+                try:
+                    with numpy.errstate(all="ignore"):
+                        ref = numpy.array(items)
+                except Exception:  # noqa: BLE001
+                    R.stat("numpy_rejects")
+                    continue
+                tags = [f"src={src}", f"python={type(py).__name__}", order]
+                twice(R, "polynomial(list)", f"polynomial({items!r})", lambda: numpoly.polynomial(items),
+                      lambda got: compare_cols(got, {(0, 0): ref}, ref.dtype, None), tags)
+                twice(R, "polynomial(tuple)", f"polynomial({tuple(items)!r})", lambda: numpoly.polynomial(tuple(items)),
+                      lambda got: compare_cols(got, {(0, 0): ref}, ref.dtype, None), tags)
+                # the typed entry as a 0-d array, and as a polynomial of that dtype
+                arr0 = numpy.asarray(typed)
+                items0 = [arr0, py] if order == "typed first" else [py, arr0]
+                twice(R, "polynomial(list with 0-d array)", f"polynomial({items0!r})", lambda: numpoly.polynomial(items0),
+                      lambda got: compare_cols(got, {(0, 0): ref}, ref.dtype, None), tags + ["0-d array entry"])
+                if src != "?":
+                    x = numpoly.variable(1, dtype=src)
+                    itemsp = [x, py] if order == "typed first" else [py, x]
+                    want_c = numpy.array([0, py] if order == "typed first" else [py, 0]).astype(ref.dtype)
+                    want_x = numpy.array([1, 0] if order == "typed first" else [0, 1]).astype(ref.dtype)
+                    twice(R, "polynomial(list with polynomial)", f"polynomial([q0 as {src}, {py!r}] {order})", lambda: numpoly.polynomial(itemsp),
+                          lambda got: compare_cols(got, {(0, 0): want_c, (1, 0): want_x}, ref.dtype, None), tags + ["polynomial entry"])
     elif k == "empty":
         R.state("empty")
         for dt in ("i8", "f4", "?"):
